@@ -241,13 +241,18 @@ def _pg_weights(ck, repo, nf):
         mi = fn._module
         cfg = nf.cfg_of(fn)
         env = _env(fn)
-        site = grad_sites(repo, fn, mi)[0]
+        gs_ = grad_sites(repo, fn, mi)
+        if not gs_:
+            raise AnalysisError(f"{q}: no gradient site found (anchor vanished)")
+        site = gs_[0]
         tgt = cfg.node_of(site["app"]).id
         paths = enumerate_paths(cfg, cfg.entry, {tgt})
         allowed = [nf.poly(parse_expr(a), Scope(None, mi, env, q), None) for a in sp["allowed"]]
         seen = set()
         for p in paths:
             pe = PathEval(nf, cfg, mi, q, env).run(p[:-1])
+            if len(site["app"].args) <= sp["weight_arg"] or any(isinstance(a_, ast.Starred) for a_ in site["app"].args):
+                raise AnalysisError(f"{q}: the weight argument of the gradient application `{short(site['app'], 60)}` is not passed positionally (unrecognised form)")
             w = pe.ev(site["app"].args[sp["weight_arg"]])
             c = w.canon()
             if c in seen:
